@@ -323,7 +323,7 @@ pub fn inject(c: &mut Choices, p: &Program, kind: usize) -> Option<(Program, Def
         }
         _ => {
             // A: assign with a dependency cycle or a repeated name
-            let which = c.pick(4);
+            let which = c.weighted(&[2, 6, 1, 4]);
             let one = || Expr::Int(BigInt::from(1));
             let v = |n: &str| Expr::Var(n.to_string());
             let n = |s: &str| Pat::Name(s.to_string(), Ty::Int);
@@ -333,7 +333,7 @@ pub fn inject(c: &mut Choices, p: &Program, kind: usize) -> Option<(Program, Def
                     // 2..5 bindings forming a valid chain in a random source order, then one of
                     // them renamed to an earlier one's name (adjacent or not, plain or inside a
                     // destructuring pattern)
-                    let k = c.range(2, 5);
+                    let k = c.range(2, 6);
                     let names: Vec<String> = (0..k).map(|i| format!("AA{i}")).collect();
                     let mut bs: Vec<(Pat, Expr)> = (0..k)
                         .map(|i| {
@@ -349,8 +349,14 @@ pub fn inject(c: &mut Choices, p: &Program, kind: usize) -> Option<(Program, Def
                         let j = c.pick(i + 1);
                         bs.swap(i, j);
                     }
-                    let a = c.pick(k - 1);
-                    let b = a + 1 + c.pick(k - 1 - a);
+                    // mostly NOT next to each other: a check that only looks at neighbours misses those
+                    let (a, b) = if k >= 3 && c.chance(180) {
+                        let a = c.pick(k - 2);
+                        (a, a + 2 + c.pick(k - 2 - a))
+                    } else {
+                        let a = c.pick(k - 1);
+                        (a, a + 1 + c.pick(k - 1 - a))
+                    };
                     let first_name = |p: &Pat| match p {
                         Pat::Cons(x, _) => match &**x {
                             Pat::Name(s, _) => s.clone(),
